@@ -647,6 +647,41 @@ fn real_binding(src: &str) -> String {
     })
 }
 
+/// entry (c): the expression as an `if` condition, i.e. directly followed by `{`, behind `parens`
+/// layers of redundant parentheses (0, 1 or 2). `(x) {` is where the parser has to tell a
+/// parenthesised expression from the parameter list of a lambda (seeded change C24_2: `((x)) {` was
+/// taken for a lambda). conv() drops parentheses, so the result must equal entry (b)'s.
+fn real_condition(src: &str, parens: usize) -> String {
+    let text = format!("v :: () {{ if {}{src}{} {{ }} }};", "(".repeat(parens), ")".repeat(parens));
+    catch_unwind(AssertUnwindSafe(|| {
+        let parse = parser::parse_source_file(&lexer::lex(&text), &text);
+        let n = parse.errors().len();
+        if n > 0 {
+            return format!("ERR {n} errors");
+        }
+        let tree = parse.into_syntax_tree();
+        let Some(root) = ast::Root::cast(tree.root(), &tree) else { return "(noncore NoRoot)".into() };
+        let defs: Vec<ast::Define> = root.defs(&tree).collect();
+        if defs.len() != 1 {
+            return format!("(noncore defs={})", defs.len());
+        }
+        let ast::Define::Binding(bd) = defs[0] else { return "(noncore Define:Variable)".into() };
+        let Some(Expr::Lambda(l)) = bd.value(&tree) else { return "(noncore not-a-lambda)".into() };
+        let Some(Expr::Block(b)) = l.body(&tree) else { return "(noncore no-block-body)".into() };
+        let first = b.stmts(&tree).next().and_then(|s| match s {
+            ast::Stmt::Expr(es) => es.expr(&tree),
+            _ => None,
+        });
+        let e = first.or_else(|| b.tail_expr(&tree));
+        let Some(Expr::If(i)) = e else { return "(noncore no-if)".into() };
+        conv(i.condition(&tree), &tree)
+    }))
+    .unwrap_or_else(|e| {
+        note_panic("parser/ast", e);
+        "PANIC".into()
+    })
+}
+
 /// the real lexer's tokens as model tokens; None when a kind is outside the model alphabet
 fn lex_model(src: &str) -> Option<Vec<String>> {
     let pairs = lex_pairs(src)?;
@@ -1215,6 +1250,24 @@ fn run_chunk(stream: &'static str, jobs: &[Job], cx: &mut Ctx) {
         let src = render(toks, j.spacing, cx.rng);
         let a = real_repl(&src);
         let bnd = real_binding(&src);
+        // entry (c) on a third of the jobs (clean ones only): the expression as an `if` condition
+        if is_clean(&bnd) && cx.rep.evaluations % 3 == 0 {
+            for parens in 0..=2usize {
+                // a block-like or struct-literal-like tail directly before `{` is genuinely ambiguous
+                // without parentheses: only the parenthesised forms are required to agree
+                let c = real_condition(&src, parens);
+                cx.rep.hit(&format!("condition-context:parens={parens}"));
+                if parens > 0 && c != bnd {
+                    cx.rep.oracle_fail(
+                        "condition-context",
+                        json!({"stream": stream, "source": format!("if {}{src}{} {{ }}", "(".repeat(parens), ")".repeat(parens)), "parens": parens}),
+                        json!(c),
+                        json!(bnd),
+                        "an expression that parses cleanly as a binding's value parses differently (or not at all) as a parenthesised `if` condition",
+                    );
+                }
+            }
+        }
         let lexed = lex_model(&src);
         if let Some(l) = &lexed {
             qreq.push(format!("C24 parse {}", l.join(" ")));
